@@ -3,8 +3,9 @@
 Tripoli-4 (specs/T4Doc.tla, T4DocTrace.tla)
   spec -> code : every document structure TLC enumerates comes with the listing AS PRINTED (`printed`) and the
                  reading C10 demands for the requested edition (`expected`); the printed structure is rendered with
-                 the response / scoring-zone / time-step / spectrum / integrated-result layouts of the example
-                 listings and exactly representable numbers, parsed by parse.Parser(...).parse_from_number /
+                 the response / scoring-zone / time-step / spectrum / mesh / integrated-result layouts of the example
+                 listings (spectra: gauss_E_time_mu_phi, meshes: box_dyn, tungstene, not converged: entropy,
+                 ttsSimplePacket20) and exactly representable numbers, parsed by parse.Parser(...).parse_from_number /
                  parse_from_index(...).to_browser(), and compared with `expected`.
   code -> spec : seeded random printed listings beyond TLC's bounds are rendered and parsed; printed structure and
                  observation go to TLC, which computes T4Doc!ReadOf(printed, batch) and returns the mismatches.
@@ -21,13 +22,14 @@ import numpy as np
 
 import core
 import tlc
-from tlaval import MV
+from tlaval import MV, parse_state
 
 SPEC = os.path.join(tlc.SPECS, 'T4Doc.tla')
 TRACE = os.path.join(tlc.SPECS, 'T4DocTrace.tla')
 AP3 = os.path.join(tlc.SPECS, 'Ap3File.tla')
 INVS = ['ReadIsExpected', 'EveryRowRead', 'BinsIncreasing', 'Injective']
-WITNESSES = ['W_DecreasingBoth', 'W_SecondEdition', 'W_NotConverged']
+WITNESSES = ['W_DecreasingBoth', 'W_SecondEdition', 'W_NotConverged', 'W_MeshTimedNotConverged']
+SHAPES = [(1, 1, 1), (1, 1, 2), (1, 2, 1), (2, 1, 1), (1, 2, 2), (2, 1, 2), (2, 2, 1), (2, 2, 2)]    # T4Doc!ShapeTable
 EXAMPLE = 'tests/eponine/tripoli4/data/gauss_E_time_mu_phi.res.ceav5'
 NPROC = max(2, min(14, (os.cpu_count() or 4) - 2))
 
@@ -62,8 +64,62 @@ def _val(vn):
     return vn / 2.0
 
 
+def normalize(printed):
+    """printed structure of a replay file written before meshes were modelled (rows [a, b, vn, sn], zones without
+    kind, sections without emesh) -> the current WRITTEN structure; the identity on a current one."""
+    for ed in printed:
+        for resp in ed['resps']:
+            for zone in resp['zones']:
+                zone.setdefault('kind', 'vol')
+                for sec in zone['secs']:
+                    sec.setdefault('emesh', dict(kind='no', cells=[]))
+                    for row in sec['rows']:
+                        if 'cells' not in row:
+                            row['cells'] = [dict(u=0, v=0, w=0, vn=row.pop('vn'), sn=row.pop('sn'))]
+    return printed
+
+
+def _cell_lines(cells):
+    """the lines of a mesh block (box_dyn.res.ceav5, tungstene.d.res.ceav5): cell indices, tally, sigma (percent)."""
+    return ''.join('\t (%d,%d,%d)\t %s\t%s\n' % (c['u'], c['v'], c['w'], _e(_val(c['vn'])), _e(_val(c['sn']))) for c in cells)
+
+
+def _render_integ(out, integ, batch, mesh):
+    """the result integrated over energy (and space for a mesh): 'number of batches used' line, under its ENERGY
+    INTEGRATED RESULTS heading for a spectrum and bare after a mesh (box_dyn, tungstene); the not-converged form is
+    the one of entropy.d / ttsSimplePacket20.d."""
+    if integ['kind'] == 'no':
+        return
+    if integ['kind'] == 'notconv':
+        out.append('\t ENERGY INTEGRATED RESULTS\n\n\t number of first discarded batches : 0\n\n\t NOT YET CONVERGED \n')
+    else:
+        if not mesh:
+            out.append('\t ENERGY INTEGRATED RESULTS\n\n\t number of first discarded batches : 0\n\n')
+        out.append('number of batches used: %d\t%s\t%s\n' % (batch, _e(_val(integ['vn'])), _e(_val(integ['sn']))))
+    out.append('\n' if mesh and integ['kind'] == 'yes' else '\n\n')
+
+
+def _render_mesh(out, zone, batch):
+    """a score on a mesh, layout of box_dyn.res.ceav5 (time steps, unit line) and tungstene.d.res.ceav5 (no time step)."""
+    out.append('\t scoring mode : SCORE_TRACK\n\t scoring zone : \t Results on a mesh: \n'
+               '\t Cell   \t  tally   \t  sigma (percent)\n\n\n')
+    for k, sec in enumerate(zone['secs']):
+        if sec['timed']:
+            out.append('\t TIME STEP NUMBER: %d\n\t ------------------------------------\n'
+                       '\t\t time min. = %s\n\t\t time max. = %s\n\t\t\t (in neut.cm.s^-1)\n\n'
+                       % (k, _e(TB[sec['tmin']]), _e(TB[sec['tmax']])))
+        for row in sec['rows']:
+            out.append('Energy range (in MeV): %s - %s\n' % (_e(EB[row['a']]), _e(EB[row['b']])))
+            out.append(_cell_lines(row['cells']) + '\n')
+        if sec['emesh']['kind'] == 'yes':
+            out.append('\nENERGY INTEGRATED RESULTS :\n' + _cell_lines(sec['emesh']['cells']) + '\n')
+        _render_integ(out, sec['integ'], batch, True)
+    out.append('\n')
+
+
 def render(printed):
-    """printed (T4Doc WRITTEN structure, plain Python) -> listing text."""
+    """printed (T4Doc WRITTEN structure, plain Python) -> listing text.  The structure from before meshes were modelled
+    (volume zones without `kind`, rows [a, b, vn, sn]: see normalize) is rendered too (conf_parselock builds such ones)."""
     out = [_preamble(), '\n']
     for ed in printed:
         out.append('\n batch number : %d\n\n' % ed['batch'])
@@ -74,6 +130,9 @@ def render(printed):
                        'ENERGY DECOUPAGE NAME : DEC_SPECTRE\n\n\n PARTICULE : NEUTRON \n' % (FN[resp['fn']], resp['name'], resp['name'])
                        + '*' * 78 + '\n\n')
             for zone in resp['zones']:
+                if zone.get('kind') == 'mesh':
+                    _render_mesh(out, zone, ed['batch'])
+                    continue
                 out.append('\t scoring mode : SCORE_TRACK\n\t scoring zone : \t Volume \t num of volume : %d\n'
                            '\t Volume in cm3: 1.000000e+00\n\n\n' % zone['zid'])
                 for k, sec in enumerate(zone['secs']):
@@ -83,17 +142,11 @@ def render(printed):
                     out.append('\t SPECTRUM RESULTS\n\t number of first discarded batches : 0\n\n'
                                '\t group (MeV) \t\t score   \t sigma_% \t score/lethargy\n\n')
                     for row in sec['rows']:
-                        out.append('%s - %s\t%s\t%s\t%s\n' % (_e(EB[row['a']]), _e(EB[row['b']]), _e(_val(row['vn'])),
-                                                            _e(_val(row['sn'])), _e(_val(row['vn']) / 4.0)))
+                        cell = row['cells'][0] if 'cells' in row else row
+                        out.append('%s - %s\t%s\t%s\t%s\n' % (_e(EB[row['a']]), _e(EB[row['b']]), _e(_val(cell['vn'])),
+                                                            _e(_val(cell['sn'])), _e(_val(cell['vn']) / 4.0)))
                     out.append('\n')
-                    integ = sec['integ']
-                    if integ['kind'] != 'no':
-                        out.append('\t ENERGY INTEGRATED RESULTS\n\n\t number of first discarded batches : 0\n\n')
-                        if integ['kind'] == 'notconv':
-                            out.append('\t NOT YET CONVERGED \n')
-                        else:
-                            out.append('number of batches used: %d\t%s\t%s\n' % (ed['batch'], _e(_val(integ['vn'])), _e(_val(integ['sn']))))
-                        out.append('\n\n')
+                    _render_integ(out, sec['integ'], ed['batch'], False)
                 out.append('\n')
             out.append('\n')
         out.append('\n simulation time (s) : %d\n\n' % ed['time'])
@@ -125,6 +178,15 @@ def _idx(table, x):
     return table.index(x) if x in table else GARBAGE
 
 
+def _cells(arr, err, ie, it):
+    """(scores, sigmas) of the cells of group ie, step it of a 7-d (u, v, w, e, t, mu, phi) result, in the order of their
+    rank (u, v, w with w running fastest); GARBAGE when the result is split in mu or phi as well."""
+    if arr.ndim != 7 or arr.shape[5:] != (1, 1):
+        return [GARBAGE], [GARBAGE]
+    vals, errs = arr[:, :, :, ie, it, 0, 0].ravel(), err[:, :, :, ie, it, 0, 0].ravel()
+    return [_num(v) for v in vals], [_sig(v, e) for v, e in zip(vals, errs)]
+
+
 def project(browser_item):
     """one Browser item -> observed record in T4Doc terms."""
     res = browser_item['results']
@@ -136,26 +198,47 @@ def project(browser_item):
     tb = score.bins.get('t', np.array([]))
     tbins = [_idx(TB, x) for x in tb] if np.size(tb) else []
     ne, nts = val.shape[3], val.shape[4]
-    squeezable = all(s == 1 for k, s in enumerate(val.shape) if k not in (3, 4))
+    mesh = browser_item.get('scoring_zone_type') == 'Mesh'
+    shape = [int(n) for n in val.shape[:3]]
+    if mesh:
+        # the cells of a mesh are known by their indices: the space bins must be these indices
+        for axis, dim in enumerate('uvw'):
+            if list(np.asarray(score.bins.get(dim, [])).ravel()) != list(range(shape[axis])):
+                shape[axis] = GARBAGE
+        zid = 0 if 'scoring_zone_id' not in browser_item else GARBAGE
+    else:
+        zid = (int(browser_item['scoring_zone_id']) if isinstance(browser_item.get('scoring_zone_id'), (int, np.integer))
+               else GARBAGE)
+    cells = [[_cells(val, err, ie, it) for it in range(nts)] for ie in range(ne)]
     item = dict(fn=fn[0] if fn else GARBAGE, name=int(name.split('_')[1]) if name.startswith('resp_') else GARBAGE,
-                zid=int(browser_item['scoring_zone_id']) if isinstance(browser_item.get('scoring_zone_id'), (int, np.integer)) else GARBAGE,
-                ebins=ebins, tbins=tbins,
-                val=[[_num(val[0, 0, 0, ie, it, 0, 0]) if squeezable else GARBAGE for it in range(nts)] for ie in range(ne)],
-                sig=[[_sig(val[0, 0, 0, ie, it, 0, 0], err[0, 0, 0, ie, it, 0, 0]) if squeezable else GARBAGE for it in range(nts)]
-                     for ie in range(ne)],
-                integ=[])
-    key = 'score_eintegrated' if tbins else 'score_integrated'
-    other = 'score_integrated' if tbins else 'score_eintegrated'
-    if other in res and key not in res:
-        key = other
+                zid=zid, shape=shape, ebins=ebins, tbins=tbins,
+                val=[[c[0] for c in row] for row in cells], sig=[[c[1] for c in row] for row in cells],
+                emesh=[], integ=[])
+    # per-cell energy-integrated mesh
     for it in range(nts):
-        if key not in res:
+        if not mesh or 'score_eintegrated' not in res:
+            item['emesh'].append(dict(kind='no', val=[], sig=[]))
+            continue
+        eval_, eerr = np.asarray(res['score_eintegrated'].value), np.asarray(res['score_eintegrated'].error)
+        if eval_.ndim == 7 and eval_.shape[:3] == val.shape[:3] and eval_.shape[3:5] == (1, nts):
+            vals, sigs = _cells(eval_, eerr, 0, it)
+        else:
+            vals, sigs = [GARBAGE], [GARBAGE]
+        item['emesh'].append(dict(kind='yes', val=vals, sig=sigs))
+    # result integrated over energy (and space for a mesh), one per time step
+    if mesh:
+        names = ['score_seintegrated', 'score_integrated']
+    else:
+        names = ['score_eintegrated', 'score_integrated'] if tbins else ['score_integrated', 'score_eintegrated']
+    key = next((k for k in names if k in res), None)
+    for it in range(nts):
+        if key is None:
             item['integ'].append(dict(kind='no', vn=0, sn=0))
             continue
         ival, ierr = np.asarray(res[key].value), np.asarray(res[key].error)
         if ival.ndim == 0:
             v, e = float(ival), float(ierr)
-        elif ival.ndim == 7 and ival.shape[4] == nts:
+        elif ival.ndim == 7 and ival.shape[4] == nts and ival.size == nts:
             v, e = float(ival[0, 0, 0, 0, it, 0, 0]), float(ierr[0, 0, 0, 0, it, 0, 0])
         else:
             v, e = float('inf'), 0.0
@@ -191,6 +274,12 @@ def plain(v):
     return v
 
 
+def _lists(v):
+    if isinstance(v, dict):
+        return {k: _lists(x) for k, x in v.items()}
+    return [_lists(x) for x in v] if isinstance(v, (tuple, list)) else v
+
+
 def first_difference(exp_items, obs_items, exp_time, obs_time):
     """(what, detail) naming the first clause of C10 broken, or None."""
     if exp_time != obs_time:
@@ -198,18 +287,25 @@ def first_difference(exp_items, obs_items, exp_time, obs_time):
     if len(exp_items) != len(obs_items):
         return 'missing-score', '%d (response, zone) results read, %d printed' % (len(obs_items), len(exp_items))
     for e, o in zip(exp_items, obs_items):
-        where = 'response resp_%d zone %d' % (e['name'], e['zid'])
+        where = 'response resp_%d %s' % (e['name'], 'zone %d' % e['zid'] if e['zid'] else 'mesh')
         if (e['fn'], e['name'], e['zid']) != (o['fn'], o['name'], o['zid']):
             return 'attribution', '%s read as function %s resp_%s zone %s' % (where, o['fn'], o['name'], o['zid'])
+        if list(e['shape']) != list(o['shape']):
+            return 'mesh-grid', '%s: cells per direction (space bins = cell indices) %s, printed %s' % (where, o['shape'], list(e['shape']))
         if list(e['ebins']) != list(o['ebins']):
             return 'energy-bins', '%s: energy bounds (indices) %s, printed %s' % (where, o['ebins'], list(e['ebins']))
         if list(e['tbins']) != list(o['tbins']):
             return 'time-bins', '%s: time bounds (indices) %s, printed %s' % (where, o['tbins'], list(e['tbins']))
-        if [list(r) for r in e['val']] != o['val']:
-            return 'value', '%s: scores (x2) %s, printed %s' % (where, o['val'], [list(r) for r in e['val']])
-        if [list(r) for r in e['sig']] != o['sig']:
+        if _lists(e['val']) != o['val']:
+            return 'value', '%s: scores (x2) [group][step][cell] %s, printed %s' % (where, o['val'], _lists(e['val']))
+        if _lists(e['sig']) != o['sig']:
             return 'error', '%s: error is not value*sigma/100 with the printed sigma: sigma%% (x2) %s, printed %s' % (
-                where, o['sig'], [list(r) for r in e['sig']])
+                where, o['sig'], _lists(e['sig']))
+        for k, (em, om) in enumerate(zip(e['emesh'], o['emesh'])):
+            if em['kind'] != om['kind'] or (em['kind'] == 'yes' and (_lists(em['val']), _lists(em['sig'])) != (om['val'], om['sig'])):
+                return 'mesh-eintegrated', '%s step %d: energy-integrated mesh %s, printed %s' % (where, k, om, _lists(dict(em)))
+        if len(e['emesh']) != len(o['emesh']):
+            return 'mesh-eintegrated', '%s: %d energy-integrated meshes, %d printed' % (where, len(o['emesh']), len(e['emesh']))
         for k, (ei, oi) in enumerate(zip(e['integ'], o['integ'])):
             if ei['kind'] == 'yes' and (oi['kind'], oi['vn'], oi['sn']) != ('yes', ei['vn'], ei['sn']):
                 return 'integrated', '%s step %d: integrated result %s, printed %s' % (where, k, oi, dict(ei))
@@ -232,7 +328,9 @@ def structure_class(printed):
                     tags.add('e-dec' if rows[0]['a'] > rows[0]['b'] else 'e-inc')
                 if secs[0]['timed'] and len(secs) > 1:
                     tags.add('t-dec' if secs[0]['tmin'] > secs[1]['tmin'] else 't-inc')
-                vals = [r['vn'] for s in secs for r in s['rows']]
+                vals = [c['vn'] for s in secs for r in s['rows'] for c in r['cells']]
+                if zone['kind'] == 'mesh':
+                    tags.add('mesh')
                 if any(v < 0 for v in vals):
                     tags.add('negative')
                 if any(v == 0 for v in vals):
@@ -246,11 +344,14 @@ def key_class(what, printed):
     tags = structure_class(printed).split('+')
     keep = {'value': ('e-', 't-'), 'energy-bins': ('e-',), 'time-bins': ('t-',), 'error': ('negative', 'zero'),
             'integrated': ('t-', 'integ-'), 'attribution': (), 'missing-score': ('integ-',), 'edition-time': (),
-            'edition-selection': (), 'parse-error': ('t-', 'integ-notconv'), 'read-differs': ('e-dec', 't-dec')}.get(what, ())
+            'edition-selection': (), 'parse-error': ('t-', 'integ-notconv'), 'read-differs': ('e-dec', 't-dec'),
+            'mesh-grid': (), 'mesh-eintegrated': ('e-', 't-')}.get(what, ())
+    keep = tuple(keep) + (('mesh',) if what not in ('edition-time', 'edition-selection') else ())
     sel = [t for t in tags if any(t.startswith(k) for k in keep)]
     if what == 'parse-error':
         timed = any(z['secs'][0]['timed'] for ed in printed[:1] for r in ed['resps'] for z in r['zones'])
-        sel = (['timed'] if timed else ['untimed']) + [t for t in sel if t.startswith('integ-')]
+        sel = ([t for t in sel if t == 'mesh'] + (['timed'] if timed else ['untimed'])
+               + [t for t in sel if t.startswith('integ-')])
     return '+'.join(sel) or 'any'
 
 
@@ -280,24 +381,44 @@ def run_printed(printed, batch):
         return 'raised', '%s: %s' % (type(ex).__name__, ex), False
 
 
+def _done_blocks(dump):
+    """the text blocks of the evaluated states of a TLC -dump file (parsed by the workers: tlc.read_dump, split)."""
+    import re
+    path = dump if os.path.exists(dump) else dump + '.dump'
+    with open(path) as f:
+        txt = f.read()
+    return [b for b in re.split(r'^State \d+:\n', txt, flags=re.M)[1:] if re.search(r'^/\\ pc = "done"$', b, flags=re.M)]
+
+
 def _work_docs(task):
-    """task = [(printed, batch, expected)] -> list of (finding|None, summary)."""
+    """task = [text block of an evaluated T4Doc state] -> list of (finding|None, structure class, key of the document
+    structure when it is non-trivial)."""
     core.use_repo()
     out = []
-    for printed, batch, expected in task:
-        got = run_printed(printed, batch)
-        cls = structure_class(printed)
-        case = dict(kind='t4', printed=printed, batch=batch)
-        if got[0] == 'raised':
-            out.append((('C10/t4/parse-error/%s/%s' % (got[1].split(':')[0], key_class('parse-error', printed)),
-                         'rendered listing does not parse: ' + got[1], case), cls))
-            continue
-        time, items, same_edition = got
-        diff = first_difference(expected['items'], items, expected['time'], time)
-        if diff is None and not same_edition:
-            diff = ('edition-selection', 'parse_from_index and parse_from_number give different editions')
-        out.append(((('C10/t4/%s/%s' % (diff[0], key_class(diff[0], printed))), diff[1], case) if diff else None, cls))
+    for block in task:
+        st = parse_state(block)
+        printed, batch, expected = plain(st['printed']), 10 * int(st['req']), plain(st['expected'])
+        doc = st['doc']
+        dkey = None
+        if any(int(r['ne']) > 1 or int(r['nt']) > 1 or int(r['shape']) > 1 for r in doc['resps']):
+            dkey = ('t4', json.dumps(plain(doc), sort_keys=True), int(st['req']))
+        out.append(_judge_doc(printed, batch, expected) + (dkey,))
     return out
+
+
+def _judge_doc(printed, batch, expected):
+    """render, parse, compare with what TLC expects -> (finding|None, structure class)."""
+    got = run_printed(printed, batch)
+    cls = structure_class(printed)
+    case = dict(kind='t4', printed=printed, batch=batch)
+    if got[0] == 'raised':
+        return (('C10/t4/parse-error/%s/%s' % (got[1].split(':')[0], key_class('parse-error', printed)),
+                 'rendered listing does not parse: ' + got[1], case), cls)
+    time, items, same_edition = got
+    diff = first_difference(expected['items'], items, expected['time'], time)
+    if diff is None and not same_edition:
+        diff = ('edition-selection', 'parse_from_index and parse_from_number give different editions')
+    return ((('C10/t4/%s/%s' % (diff[0], key_class(diff[0], printed))), diff[1], case) if diff else None, cls)
 
 
 def _work_random(task):
@@ -321,6 +442,11 @@ def random_printed(rng):
         specs.append(dict(ne=rng.randint(1, 6), nt=rng.choice([0, 0, 1, 2, 3, 4]), eorder=rng.choice(['inc', 'dec']),
                           torder=rng.choice(['inc', 'dec']), integ=rng.choice(['yes', 'yes', 'no', 'notconv']),
                           nz=rng.randint(1, 3), e0=rng.randint(0, 3), t0=rng.randint(0, 3)))
+        if rng.random() < 0.35:      # a score on a mesh: a response of its own, grids beyond T4Doc!ShapeTable
+            specs[-1].update(kind='mesh', nz=1, ne=rng.randint(1, 3), shape=[rng.randint(1, 3) for _ in range(3)],
+                             emesh=rng.random() < 0.5)
+        else:
+            specs[-1].update(kind='vol', shape=[1, 1, 1], emesh=False)
     used = set()
 
     def fresh(signed=True):
@@ -335,7 +461,15 @@ def random_printed(rng):
         resps = []
         for r, sp in enumerate(specs, 1):
             zones = []
-            zids = sorted(rng.sample(range(1, 30), sp['nz']))
+            zids = sorted(rng.sample(range(1, 30), sp['nz'])) if sp['kind'] == 'vol' else [0]
+            labels = [(u, v, w) for u in range(sp['shape'][0]) for v in range(sp['shape'][1]) for w in range(sp['shape'][2])]
+
+            def cells():
+                out = []
+                for u, v, w in labels:
+                    zero = rng.random() < 0.15
+                    out.append(dict(u=u, v=v, w=w, vn=0 if zero else fresh(), sn=0 if zero else rng.randint(1, 60)))
+                return out
             for zid in zids:
                 steps = list(range(sp['nt'])) if sp['nt'] else [0]
                 if sp['torder'] == 'dec':
@@ -348,14 +482,14 @@ def random_printed(rng):
                     rows = []
                     for ie in groups:
                         lo, hi = sp['e0'] + ie, sp['e0'] + ie + 1
-                        zero = rng.random() < 0.15
                         rows.append(dict(a=hi if sp['eorder'] == 'dec' else lo, b=lo if sp['eorder'] == 'dec' else hi,
-                                         vn=0 if zero else fresh(), sn=0 if zero else rng.randint(1, 60)))
+                                         cells=cells()))
                     integ = dict(kind=sp['integ'], vn=fresh() if sp['integ'] == 'yes' else 0,
                                  sn=rng.randint(1, 60) if sp['integ'] == 'yes' else 0)
+                    emesh = dict(kind='yes', cells=cells()) if sp['emesh'] else dict(kind='no', cells=[])
                     secs.append(dict(timed=sp['nt'] > 0, tmin=sp['t0'] + it if sp['nt'] else 0,
-                                     tmax=sp['t0'] + it + 1 if sp['nt'] else 0, rows=rows, integ=integ))
-                zones.append(dict(zid=zid, secs=secs))
+                                     tmax=sp['t0'] + it + 1 if sp['nt'] else 0, rows=rows, emesh=emesh, integ=integ))
+                zones.append(dict(zid=zid, kind=sp['kind'], secs=secs))
             resps.append(dict(fn=1 + (r % 2), name=r, zones=zones))
         printed.append(dict(batch=batch, time=3 * k + rng.randint(1, 3) + (printed[-1]['time'] if printed else 0), resps=resps))
     return printed, rng.choice(batches)
@@ -588,7 +722,7 @@ def replay_case(case):
     core.use_repo()
     if case.get('kind') == 'ap3':
         return ap3_replay(case)
-    printed, batch = case['printed'], case['batch']
+    printed, batch = normalize(case['printed']), case['batch']
     got = run_printed(printed, batch)
     if got[0] == 'raised':
         return False, 'rendered listing does not parse: ' + got[1]
@@ -603,8 +737,10 @@ def replay_case(case):
 
 
 # ----------------------------------------------------------------------------------------------
-def _consts(ned, nresp, nz, ne, nt, thin):
-    return {'MaxEditions': ned, 'MaxResponses': nresp, 'MaxZones': nz, 'MaxE': ne, 'MaxT': nt, 'Thin': thin}
+def _consts(ned, nresp, nz, ne, nt, thin, kinds=('vol',), shapes=()):
+    """constants of T4Doc.tla; shapes = mesh grids (nu, nv, nw) out of SHAPES."""
+    return {'MaxEditions': ned, 'MaxResponses': nresp, 'MaxZones': nz, 'MaxE': ne, 'MaxT': nt, 'Thin': thin,
+            'Kinds': frozenset(kinds), 'ShapeIds': frozenset(SHAPES.index(tuple(sh)) + 1 for sh in shapes)}
 
 
 def _pool():
@@ -613,15 +749,17 @@ def _pool():
 
 def run_c10(ctx):
     ctx.rule('T4: spec->code every document structure of T4Doc.tla (editions x responses x zones x energy groups x time '
-             'steps x print orders x sign class x integrated kind x requested edition) rendered with the layouts of the '
+             'steps x print orders x sign class x integrated kind x volume spectrum | mesh grid with or without '
+             'energy-integrated mesh x requested edition) rendered with the layouts of the '
              'example listings and parsed; code->spec seeded random printed listings validated by TLC against '
              'T4DocTrace.tla. Apollo3: every abstract HDF5 tree of Ap3File.tla written with h5py and read back by Reader '
-             'and Picker. distinct_nontrivial counts distinct structures with at least two energy groups or two time '
-             'steps (T4) and trees with at least one zone result (Apollo3).')
+             'and Picker. distinct_nontrivial counts distinct structures with at least two energy groups, two time '
+             'steps or two mesh cells (T4) and trees with at least one zone result (Apollo3).')
     ctx.assume('numbers are halves of integers printed with %.6e (exact); bounds come from increasing tables of exactly '
                'representable values; error compared with value*sigma/100 to 1e-12 relative')
-    ctx.assume('layouts not templated (mesh, angular zones, IFP, sensitivities, k-eff blocks, depletion) are not covered: '
-               'C10 is claimed at exploration level')
+    ctx.assume('layouts not templated (extended mesh with coordinates, entropy on a mesh, angular zones, IFP, sensitivities, '
+               'k-eff blocks, depletion) are not covered: C10 is claimed at exploration level; nu and ZA spectra are printed '
+               'by no shipped example listing (outside the quantifier)')
     wd = tlc.workdir('c10')
     _SCRATCH[:] = [wd]
     configs = [('one-response', _consts(2, 1, 2, 3, 2, True))]
@@ -629,36 +767,40 @@ def run_c10(ctx):
         configs.append(('two-responses', _consts(2, 2, 2, 2, 2, True)))
     else:
         configs.append(('two-responses', _consts(1, 2, 1, 2, 2, True)))
-    tasks = []
-    for name, consts in configs:
-        cfg = tlc.write_cfg(os.path.join(wd, name + '.cfg'), constants=consts, invariants=INVS, deadlock=False)
-        dump = os.path.join(wd, name)
-        res = tlc.run(SPEC, cfg, dump=dump)
-        ctx.tlc(res, 'T4Doc/' + name)
-        if not res.ok:
-            raise tlc.MachineryError('T4Doc.tla %s: %s\n%s' % (name, res.violation, res.out[-1500:]))
-        tlc.check_coverage(res, ['Eval'], 'T4Doc/' + name)
-        for st in tlc.read_dump(dump):
-            if str(st['pc']) != 'done':
-                continue
-            printed = plain(st['printed'])
-            expected = plain(st['expected'])
-            tasks.append((printed, 10 * int(st['req']), expected))
-            d = st['doc']
-            if any(int(r['ne']) > 1 or int(r['nt']) > 1 for r in d['resps']):
-                ctx.distinct(('t4', json.dumps(plain(d), sort_keys=True), int(st['req'])))
-        os.remove(dump + '.dump')
+    # a score on a mesh: every grid with two cells in one direction and the 2x2x2 grid (thorough: all of ShapeTable)
+    configs.append(('mesh', _consts(ctx.pick(1, 2), 1, 1, 2, 2, True, kinds=('mesh',),
+                                    shapes=ctx.pick([(1, 1, 2), (1, 2, 1), (2, 1, 1), (2, 2, 2)], SHAPES[1:]))))
+    # a mesh response next to a volume response (attribution), either one first
+    configs.append(('mesh-and-volume', _consts(1, 2, 1, ctx.pick(1, 2), ctx.pick(1, 2), True, kinds=('vol', 'mesh'), shapes=[(1, 2, 2)])))
+    # all TLC runs on T4Doc.tla (enumerations and witnesses) and the witnesses of Ap3File.tla are independent: in parallel
     from concurrent.futures import ThreadPoolExecutor
-    with ThreadPoolExecutor(max_workers=5) as ex:      # witnesses of both modules: independent TLC runs, in parallel
+    tasks = []
+    with ThreadPoolExecutor(max_workers=len(configs) + 6) as ex:
+        runs = []
+        for name, consts in configs:
+            cfg = tlc.write_cfg(os.path.join(wd, name + '.cfg'), constants=consts, invariants=INVS, deadlock=False)
+            dump = os.path.join(wd, name)
+            runs.append((name, dump, ex.submit(tlc.run, SPEC, cfg, dump=dump, workers=4)))
         futs = []
         for wit in WITNESSES:
-            cfg = tlc.write_cfg(os.path.join(wd, wit + '.cfg'), constants=_consts(2, 1, 1, 2, 2, True), invariants=[wit],
-                                deadlock=False)
+            cfg = tlc.write_cfg(os.path.join(wd, wit + '.cfg'), invariants=[wit], deadlock=False,
+                                constants=_consts(2, 1, 1, 2, 2, True, kinds=('vol', 'mesh'), shapes=[(1, 2, 2)]))
             futs.append((wit, 'T4Doc.tla', ex.submit(tlc.run, SPEC, cfg, coverage=False, workers=2)))
         for wit in ('W_TwoOutputs', 'W_IsotopeAndMacro'):
             cfg = tlc.write_cfg(os.path.join(wd, wit + '.cfg'), invariants=[wit], deadlock=False,
                                 constants={'MaxOutputs': 2, 'MaxZones': 1, 'MaxIsotopes': 2, 'MaxResults': 2, 'NG': 3})
             futs.append((wit, 'Ap3File.tla', ex.submit(tlc.run, AP3, cfg, coverage=False, workers=2)))
+        for name, dump, fut in runs:
+            res = fut.result()
+            ctx.tlc(res, 'T4Doc/' + name)
+            if not res.ok:
+                raise tlc.MachineryError('T4Doc.tla %s: %s\n%s' % (name, res.violation, res.out[-1500:]))
+            tlc.check_coverage(res, ['Eval'], 'T4Doc/' + name)
+            blocks = _done_blocks(dump)
+            if 2 * len(blocks) != res.distinct:
+                raise tlc.MachineryError('T4Doc.tla %s: %d evaluated states in the dump, %d distinct states' % (name, len(blocks), res.distinct))
+            tasks.extend(blocks)
+            os.remove(dump + '.dump')
         for wit, mod, fut in futs:
             if fut.result().violation != ('invariant', wit):
                 raise tlc.MachineryError('witness %s not reachable in %s' % (wit, mod))
@@ -675,8 +817,10 @@ def run_c10(ctx):
         rand_results = pool.map(_work_random, [c for c in rchunks if c])
     n_docs = 0
     for chunk in doc_results:
-        for fnd, cls in chunk:
+        for fnd, cls, dkey in chunk:
             n_docs += 1
+            if dkey:
+                ctx.distinct(dkey)
             if fnd:
                 ctx.violation(fnd[0], fnd[1], fnd[2], module='conf_t4doc')
     ctx.count(evaluations=n_docs, traces=n_docs)
@@ -700,7 +844,7 @@ def run_c10(ctx):
     if os.environ.get('VERIF_SELFTEST_CORRUPT') and cases:
         # self-test of the binding: falsify one recorded number
         cid, printed, batch, time, items = cases[0]
-        items[0]['val'][0][0] += 2
+        items[0]['val'][0][0][0] += 2
     res, bad = tlc_validate(wd, cases, 'random')
     ctx.tlc(res, 'T4DocTrace/random')
     for cid, k in sorted(bad.items()):
